@@ -449,6 +449,11 @@ def post_shadow(ctx, call):
             ok, why = compare_slice(res, single, pos, cshape)
             if ok is False and opname in ("angle", "angles") and isinstance(res, np.ndarray) and res.shape[: len(cshape)] == tuple(cshape):
                 ok = _angle_close(res[pos], single)  # angles are defined modulo pi (+-pi/2 identified)
+            if ok is False and opname == "angles" and isinstance(res, list) and isinstance(single, list) and len(res) == len(single):
+                try:
+                    ok = all(np.shape(r)[: len(cshape)] == tuple(cshape) and _angle_close(np.asarray(r)[pos], s) for r, s in zip(res, single))
+                except Exception:
+                    ok = False
             if ok is False and opname in UNORDERED_OPS and isinstance(res, (list, tuple)) and isinstance(single, (list, tuple)):
                 ok2 = _unordered_equal(res, single, pos, cshape)
                 if ok2:
@@ -704,6 +709,91 @@ def g_catalogue(ctx, rng, i):
                 pass
 
 
+def g_constructors(ctx, rng, i):
+    """Constructors and alternative constructors handed collections: the element at every position is what the same constructor makes of
+    the single arguments at that position; list-valued properties of polygon collections (angles) position by position."""
+    import geometer as g
+    from geometer.curve import Quadric, QuadricCollection
+
+    dim = 2 + i % 2
+    k = [1, 2, 3, 4, 5][(i // 2) % 5]
+    n = dim + 1
+
+    def judge(what, res, singles, operands, op):
+        ok, why = True, ""
+        for pos, single in enumerate(singles):
+            if isinstance(single, Exception):
+                ok, why = False, f"the single constructor raises {type(single).__name__} at position {pos}"
+                break
+            o, w = compare_slice(res, single, (pos,), (len(singles),))
+            if not o:
+                ok, why = False, f"position {pos}: {w}"
+                break
+        ctx.judge("shadow", bool(ok), operands, what=f"{what}: {why}", op=op, feat={"op": op, "cshape": [len(singles)], "dims": [dim]}, nontrivial=True)
+
+    def attempt(f):
+        try:
+            return f()
+        except Exception as e:
+            return e
+
+    # degenerate quadrics from pairs of hyperplanes
+    E = gen.coords(rng, (k, n), 4, "int")
+    F = gen.coords(rng, (k, n), 4, "int")
+    E[np.all(E == 0, axis=-1)] = 1
+    F[np.all(F == 0, axis=-1)] = 1
+    HC = g.LineCollection if dim == 2 else g.PlaneCollection
+    H1 = g.Line if dim == 2 else g.Plane
+    res = attempt(lambda: QuadricCollection.from_planes(HC(E), HC(F)))
+    singles = [attempt(lambda j=j: Quadric.from_planes(H1(E[j]), H1(F[j]))) for j in range(k)]
+    if isinstance(res, Exception):
+        if not all(isinstance(s, Exception) for s in singles):
+            ctx.judge("shadow", False, [E, F], what=f"QuadricCollection.from_planes raised {type(res).__name__}: {str(res)[:80]} for {k} pairs although the single constructor succeeds",
+                      op="QuadricTensor.from_planes", feat={"op": "QuadricTensor.from_planes", "cshape": [k], "dims": [dim], "exc": type(res).__name__}, nontrivial=True)
+    else:
+        judge("QuadricCollection.from_planes", res, singles, [E, F], "QuadricTensor.from_planes")
+    # quadrics normalised by their pseudo-determinant
+    A = gen.coords(rng, (k, n, n), 4, "int").astype(float)
+    A = A + np.swapaxes(A, -1, -2) + np.eye(n) * gen.pick(rng, [0, 3, -5])
+    res = attempt(lambda: QuadricCollection(A, normalize_matrix=True))
+    singles = [attempt(lambda j=j: Quadric(A[j], normalize_matrix=True)) for j in range(k)]
+    if isinstance(res, Exception):
+        if not all(isinstance(s, Exception) for s in singles):
+            ctx.judge("shadow", False, [A], what=f"QuadricCollection(normalize_matrix=True) raised {type(res).__name__}: {str(res)[:80]} for {k} matrices although the single constructor succeeds",
+                      op="QuadricTensor.__init__", feat={"op": "QuadricTensor.__init__", "cshape": [k], "dims": [dim], "exc": type(res).__name__}, nontrivial=True)
+    else:
+        ok = all(not isinstance(s, Exception) and np.allclose(res.array[j], s.array, rtol=1e-9, atol=1e-12) for j, s in enumerate(singles))
+        ctx.judge("shadow", bool(ok), [A], what="QuadricCollection(normalize_matrix=True): an element is not the normalised matrix of the single constructor", op="QuadricTensor.__init__",
+                  feat={"op": "QuadricTensor.__init__", "cshape": [k], "dims": [dim]}, nontrivial=True)
+    # interior angles of a collection of polygons (planar, 2D and 3D) -- modulo pi, as the single polygons report them
+    nv = 3 + i % 3
+    polys = []
+    for _ in range(k):
+        for _t in range(30):
+            V = gen.coords(rng, (nv, 2), 6, "int")
+            if len({tuple(v) for v in V}) == nv and all(abs(np.linalg.det(np.stack([V[(j + 1) % nv] - V[j], V[(j + 2) % nv] - V[(j + 1) % nv]]))) > 0.5 for j in range(nv)):
+                break
+        else:
+            return
+        if dim == 3:
+            V = np.concatenate([V, (V[:, :1] + 2 * V[:, 1:2] + 1)], axis=1)
+        polys.append(np.concatenate([V, np.ones((nv, 1), dtype=V.dtype)], axis=1).astype(float))
+    pc = attempt(lambda: g.PolygonCollection(np.stack(polys)))
+    if isinstance(pc, Exception):
+        return
+    res = attempt(lambda: pc.angles)
+    singles = [attempt(lambda j=j: g.Polygon(polys[j]).angles) for j in range(k)]
+    if any(isinstance(s, Exception) for s in singles):
+        return
+    if isinstance(res, Exception):
+        ctx.judge("shadow", False, [pc], what=f"PolygonCollection.angles raised {type(res).__name__}: {str(res)[:80]}", op="PolygonTensor.angles",
+                  feat={"op": "PolygonTensor.angles", "cshape": [k], "dims": [dim], "exc": type(res).__name__}, nontrivial=True)
+        return
+    ok = len(res) == nv and all(np.shape(r) == (k,) for r in res) and all(_angle_close(np.array([res[v][j] for v in range(nv)]), np.array(singles[j], dtype=float)) for j in range(k))
+    ctx.judge("shadow", bool(ok), [pc], what=f"PolygonCollection.angles: not the angles of the single polygons (got {len(res)} arrays of shape {np.shape(res[0]) if len(res) else None} for {k} polygons of {nv} vertices)",
+              op="PolygonTensor.angles", feat={"op": "PolygonTensor.angles", "cshape": [k], "dims": [dim]}, nontrivial=True)
+
+
 def install(ctx):
     import geometer.base as B
     import geometer.operators as O
@@ -741,6 +831,7 @@ g_indexing, g_catalogue = _tolerant(g_indexing), _tolerant(g_catalogue)
 GROUPS = [
     {"name": "indexing", "fn": g_indexing, "quick": 40, "thorough": 400},
     {"name": "catalogue", "fn": g_catalogue, "quick": 48, "thorough": 480},
+    {"name": "constructors", "fn": g_constructors, "quick": 120, "thorough": 1200},
 ]
 
 
